@@ -14,7 +14,8 @@ EXPLANATION = (
     "large fields: every call of flush_bytes in deflate() passes a slice whose start is offset by state.gzindex (resume after a "
     "partial write); flush_bytes advances gzindex by what it copied and zeroes it on completion; the two header-CRC bytes are "
     "written only after room for both was made. That captured bytes equal the stream's and CRC correctness are not decided. "
-    "PAIR/header-crc-once: in flush_bytes a CRC update from which a suspension (ControlFlow::Break) is still reachable is taken over the pending buffer, never over the caller's slice (which is handed in again from gzindex). SIB/resume-gzindex advance-before-suspend: between every Pending::extend in flush_bytes and a suspension exit gzindex is advanced.")
+    "PAIR/header-crc-once: in flush_bytes a CRC update from which a suspension (ControlFlow::Break) is still reachable is taken over the pending buffer, never over the caller's slice (which is handed in again from gzindex). SIB/resume-gzindex advance-before-suspend: between every Pending::extend in flush_bytes and a suspension exit gzindex is advanced. "
+    "MODE/header-done done-last: no suspension or CRC-mismatch exit is reachable after head.done = 1 is stored.")
 
 CLAIM = dict(
     text="Static bounds (count/offset expression shapes) on the three header-capture copies, mode-graph constraints on the "
